@@ -97,6 +97,10 @@ def check(ctx, extra_random_steps=0):
     ctx.tlc_actions("MC_EngineCore", "MC_EngineCore_cov.cfg",
                     ["MarketItem", "Disconnects", "AccountItem", "TradingState", "Commands", "Shutdown"])
     ctx.tlc_mc("MC_EngineCore", "MC_EngineCore.cfg" if ctx.quick else "MC_EngineCore_thorough.cfg", timeout=3000, coverage=False)
+    if not ctx.quick:
+        # every event x environment of the alphabet, one step, from 640 engine states (mixed link health,
+        # trading enabled / disabled, orders in every kind, long / short / flat)
+        ctx.tlc_mc("MC_EngineCore", "MC_EngineCore_rich.cfg", timeout=3000, coverage=False)
     if ctx.pid == "C19" and not ctx.quick:
         # every filter (all subsets) x both commands from 1440 engine states, one step, exhaustive
         ctx.tlc_mc("MC_EngineCore", "MC_EngineCore_scope.cfg", timeout=3000, coverage=False)
